@@ -38,6 +38,9 @@ where
     let mut header = [0u8; SNA_HEADER_SIZE];
     asset.read_exact(&mut header)?;
 
+    // State of the interrupted instruction stream does not belong to the loaded machine
+    emulator.cpu.reset_execution_state();
+
     // i-reg
     emulator.cpu.regs.set_i(header[0]);
     // alt-regs
